@@ -424,21 +424,28 @@ class WorkerPool:
                 transport.close()
                 return
 
-            key = (
-                tuple(str(a) for a in transport.proc.args)
-                if isinstance(transport.proc.args, (list, tuple))
-                else (str(transport.proc.args),)
-            )
-            total_idle = sum(len(d) for d in self._idle.values())
+            if self._max_idle <= 0:
+                # Nothing may be cached.  Evicting "the oldest idle worker"
+                # from an empty cache and then appending this one would leave
+                # one idle worker behind, so close the returning worker itself.
+                self._discards += 1
+                evicted = transport
+            else:
+                key = (
+                    tuple(str(a) for a in transport.proc.args)
+                    if isinstance(transport.proc.args, (list, tuple))
+                    else (str(transport.proc.args),)
+                )
+                total_idle = sum(len(d) for d in self._idle.values())
 
-            # If at capacity, evict the globally oldest idle worker
-            if total_idle >= self._max_idle:
-                evicted = self._evict_oldest_locked()
+                # If at capacity, evict the globally oldest idle worker
+                if total_idle >= self._max_idle:
+                    evicted = self._evict_oldest_locked()
 
-            dq = self._idle.setdefault(key, deque())
-            dq.append(_IdleEntry(key=key, transport=transport, returned_at=time.monotonic()))
-            self._returns += 1
-            _logger.debug("Returned worker to pool: pid=%d", transport.proc.pid)
+                dq = self._idle.setdefault(key, deque())
+                dq.append(_IdleEntry(key=key, transport=transport, returned_at=time.monotonic()))
+                self._returns += 1
+                _logger.debug("Returned worker to pool: pid=%d", transport.proc.pid)
 
         # Close evicted transport outside the lock
         if evicted is not None:
